@@ -294,3 +294,36 @@ pub fn chunk_sizes(total: usize, hints: &[u16], max_chunk: usize) -> Vec<usize> 
     }
     out
 }
+
+/// Fuzz sanitizers: bring decoded values into AMQP's field-size limits.
+pub fn clamp_short(s: &mut String) {
+    if s.len() > 255 {
+        let mut cut = 255;
+        while !s.is_char_boundary(cut) {
+            cut -= 1;
+        }
+        s.truncate(cut);
+    }
+}
+
+pub fn sanitize_props(p: &mut Props) {
+    for f in [
+        &mut p.content_type,
+        &mut p.content_encoding,
+        &mut p.correlation_id,
+        &mut p.reply_to,
+        &mut p.expiration,
+        &mut p.message_id,
+        &mut p.type_,
+        &mut p.user_id,
+        &mut p.app_id,
+        &mut p.cluster_id,
+    ] {
+        if let Some(s) = f.as_mut() {
+            clamp_short(s);
+        }
+    }
+    // decoded tables may carry over-long keys at any depth; the generators' tables are exercised
+    // by the proptest stage
+    p.headers = None;
+}
